@@ -25,6 +25,11 @@ var solverCVC5 = SolverCfg{"cvc5-1.0.3", []string{"cvc5", "--lang=smt2", "--incr
 // script builds the SMT-LIB text of a VC. If only >= 0, only that obligation is checked
 // (earlier obligations are assumed), and a model is requested.
 func (vc *VC) script(only int, timeoutMs int, solver string) string {
+	return vc.scriptSel(only, nil, timeoutMs, solver)
+}
+
+// scriptSel: if sel != nil only obligations with sel(ob) are checked (others are assumed).
+func (vc *VC) scriptSel(only int, sel func(*Obligation) bool, timeoutMs int, solver string) string {
 	var b strings.Builder
 	if strings.HasPrefix(solver, "cvc5") {
 		b.WriteString("(set-option :produce-models true)\n(set-logic ALL)\n")
@@ -48,7 +53,7 @@ func (vc *VC) script(only int, timeoutMs int, solver string) string {
 		}
 		ob := it.ob
 		goal := Imp(ob.Guard, ob.Cond)
-		if only < 0 || only == ob.Index {
+		if (only < 0 && (sel == nil || sel(ob))) || only == ob.Index {
 			fmt.Fprintf(&body, "(echo \"ob %d\")\n(push 1)\n(assert (not %s))\n(check-sat)\n", ob.Index, goal)
 			if only == ob.Index {
 				body.WriteString("(get-model)\n")
@@ -200,16 +205,27 @@ func workDir() string {
 
 // Solve discharges all obligations of a VC: one incremental run, then per-obligation retries on
 // the other solvers for anything not unsat.
-func (vc *VC) Solve(perCheckMs int, escalate bool) {
-	if len(vc.obls) == 0 {
+func (vc *VC) Solve(perCheckMs int, escalate bool) { vc.SolveSel(nil, perCheckMs, escalate) }
+
+func (vc *VC) SolveSel(sel func(*Obligation) bool, perCheckMs int, escalate bool) {
+	n := 0
+	for _, ob := range vc.obls {
+		if sel == nil || sel(ob) {
+			n++
+		}
+	}
+	if n == 0 {
 		return
 	}
 	start := time.Now()
-	sc := vc.script(-1, perCheckMs, solverZ3New.Name)
-	total := time.Duration(perCheckMs*len(vc.obls)+5000) * time.Millisecond
+	sc := vc.scriptSel(-1, sel, perCheckMs, solverZ3New.Name)
+	total := time.Duration(perCheckMs*n+5000) * time.Millisecond
 	r := runSolver(solverZ3New, sc, total, perCheckMs)
-	per := time.Since(start).Milliseconds() / int64(len(vc.obls))
+	per := time.Since(start).Milliseconds() / int64(n)
 	for _, ob := range vc.obls {
+		if sel != nil && !sel(ob) {
+			continue
+		}
 		ob.Result = r.results[ob.Index]
 		if ob.Result == "" {
 			ob.Result = "unknown"
@@ -224,7 +240,7 @@ func (vc *VC) Solve(perCheckMs int, escalate bool) {
 		return
 	}
 	for _, ob := range vc.obls {
-		if ob.Result == "unsat" {
+		if ob.Result == "unsat" || (sel != nil && !sel(ob)) {
 			continue
 		}
 		vc.retry(ob, perCheckMs)
